@@ -23,6 +23,7 @@ type Obligation struct {
 	Flow    bool // decided syntactically by the executor (frame/fresh); Goal true/false
 	Axioms  []string
 	Trusted []string // trusted-base tags used
+	Uses    map[string]bool // axioms the function's contract lists under `uses`
 }
 
 type SideCond struct {
@@ -184,6 +185,14 @@ type Engine struct {
 	debugNames    map[ssa.Value]string
 	externCalls   map[string]bool
 	initMode      bool
+	usedAxioms    map[string]bool
+	unsafeUses    map[string]bool
+	inlineNames   map[string]bool
+	curUses       map[string]bool
+	missingAnchors map[string]bool
+	groundDone    bool
+	groundFacts   []*Term
+	groundResults []GroundResult
 }
 
 func (en *Engine) newRegion(name string, t types.Type, kind string) *Region {
@@ -207,6 +216,16 @@ func (en *Engine) addObl(st *State, kind string, goal *Term, detail string, pos 
 		}
 		return last
 	}
+	// A ==> (B1 && B2 ...) is split like a conjunction
+	if goal.op == OImp && goal.args[1].op == OAnd && len(goal.args[1].args) <= 2000 && (kind == "post" || strings.HasPrefix(kind, "cut@") || strings.HasPrefix(kind, "inv-")) {
+		var last *Obligation
+		n := len(goal.args[1].args)
+		for i, g := range goal.args[1].args {
+			last = en.addObl(st, kind, Imp(goal.args[0], g), fmt.Sprintf("%s [conjunct %d/%d]", detail, i+1, n), pos)
+			last.Alg = true
+		}
+		return last
+	}
 	// an implication whose premise is (the negation of) a fact of this path is resolved here
 	if goal.op == OImp {
 		prem := goal.args[0]
@@ -221,7 +240,7 @@ func (en *Engine) addObl(st *State, kind string, goal *Term, detail string, pos 
 			}
 		}
 	}
-	o := &Obligation{Name: en.oblName(kind), Kind: kind, Func: en.curFunc, Facts: st.facts[:len(st.facts):len(st.facts)], Goal: goal, Detail: detail, Pos: pos}
+	o := &Obligation{Name: en.oblName(kind), Kind: kind, Func: en.curFunc, Facts: st.facts[:len(st.facts):len(st.facts)], Goal: goal, Detail: detail, Pos: pos, Uses: en.curUses}
 	en.obls = append(en.obls, o)
 	return o
 }
